@@ -226,6 +226,7 @@ class Impl(object):
         from defcon import Font
         self.tmpd = tmpd
         self.keep = []          # keep every object alive
+        self.unilists = {}
         self.touched = False
         self.case = case
         if case["variant"] == "memory":
@@ -289,7 +290,11 @@ class Impl(object):
             elif k == "setUnicodes":
                 g = layer[op[1]]
                 self.keep.append(g)
-                g.unicodes = list(op[2])
+                # the caller keeps ONE list object per glyph object, edits it in place and assigns it again: the glyph
+                # must have taken a copy, or the comparison with the "old" value sees no change
+                lst = self.unilists.setdefault(id(g), [])
+                lst[:] = list(op[2])
+                g.unicodes = lst
             elif k == "edit":
                 g = layer[op[1]]
                 self.keep.append(g)
